@@ -13,7 +13,7 @@ RULE = ('E1: the 21 validating classes + Basic.Properties (from the spec '
         'name sites in thorough; code points 0..0x2FF and 64 look-alikes at '
         'every name site; deprecated fields x fixed/other values; '
         'delivery_mode -1..256; each three ways: constructor, setattr + '
-        'frame.marshal, and as received bytes through frame.unmarshal. '
+        'frame.marshal (the same object encoded three times), and as received bytes through frame.unmarshal. '
         'Oracle: an independent predicate written from the statement; '
         'ValueError iff broken; never on decode. A case is (site, value, '
         'way); non-trivial = value differs from the default.')
@@ -121,15 +121,28 @@ def try_constructor(cls, arg, value):
 
 
 def try_setattr_marshal(p, cls, arg, value):
+    """Change the attribute after construction, then encode the SAME object
+    three times: the verdict must be the same every time (a validation
+    result must not be remembered across a failed attempt)."""
     obj = cls()
     setattr(obj, arg, value)
-    try:
-        p.frame.marshal(obj, 1)
-        return False, None
-    except ValueError:
-        return True, None
-    except Exception as exc:  # noqa
-        return False, exc
+    verdicts = []
+    other = None
+    for attempt in range(3):
+        try:
+            if attempt == 1:
+                obj.marshal()
+            else:
+                p.frame.marshal(obj, 1)
+            verdicts.append(False)
+        except ValueError:
+            verdicts.append(True)
+        except Exception as exc:  # noqa
+            verdicts.append(False)
+            other = exc
+    if len(set(verdicts)) != 1:
+        return 'unstable:%r' % (verdicts,), other
+    return verdicts[0], other
 
 
 def check_value(ctx, m, arg, kind, value, ways=('constructor', 'setattr',
@@ -151,7 +164,16 @@ def check_value(ctx, m, arg, kind, value, ways=('constructor', 'setattr',
             expect(ctx, site, value, way, raised, other, is_broken, case)
         elif way == 'setattr':
             raised, other = try_setattr_marshal(p, cls, arg, value)
-            ctx.calls(2)
+            ctx.calls(4)
+            if isinstance(raised, str):
+                ctx.violation('validate|{}.{}|unstable|{}'.format(
+                    m.name, arg, short(value, 80)),
+                    '{}({}={}) set after construction: encoding the same '
+                    'object three times gave ValueError verdicts {} (must be '
+                    'the same every time)'.format(
+                        m.name, arg, short(value, 60), raised), case,
+                    'same verdict every time', raised)
+                continue
             # only ValueError is in question here; other encode errors
             # (a 256-character queue name cannot be a short string) are not
             expect(ctx, site, value, way, raised, None if not raised else
